@@ -226,7 +226,7 @@ def jobs(tier, seed):
                                         'quick' else 3000),
                             timeout_s=1200 if tier == 'quick' else 3300))
   if tier == 'thorough':
-    for panel in ['P1', 'P12']:
+    for panel in ['P1']:
       for m in ['exhaustive', 'greedy']:
         for t in TRANSFORMS[:6]:
           for sym in (['budget', 'share'], ['vol', 'tsize'], ['ngm', 'share']):
